@@ -2,3 +2,4 @@ package autometa
 
 // Bounds of the arbitrary-byte harnesses (overridden per tier by the check driver).
 var verifC07N = 20
+var verifC08N = 12
